@@ -1078,6 +1078,29 @@ func (g *Gen) scenarios() []intent {
 			return out
 		})
 	}
+	if c.has("oauth2") && (c.has("lock") || c.has("confirm")) {
+		// an OAuth2 account that exists, is then locked (or has its confirmation restarted), and comes back through
+		// the provider
+		add(boost(3, "oauth2", "lock", "general"), func() []SymStep {
+			b := g.browser()
+			prov := pickS(g.rng, c.Providers...)
+			uid := pickS(g.rng, "100", "700")
+			pa := &ProviderAnswer{ExchangeOK: true, DetailsOK: true, UID: uid, Email: "o@x.io", Token: "tokL"}
+			st := SymStep{Kind: "req", Req: &SymReq{Browser: b, Method: "GET", Route: "OAuthStart", Arg: prov}}
+			cb := SymStep{Kind: "req", Req: &SymReq{Browser: b, Method: "GET", Route: "OAuthCallback", Arg: prov,
+				Query: []KV{{"state", Desc{K: "sessval", B: b, V: "oauth2_state"}}, {"code", lit("c")}}}, PA: pa}
+			kind := "lock"
+			if !c.has("lock") || (c.has("confirm") && g.rng.Intn(3) == 0) {
+				kind = "startconfirm"
+			}
+			pid := "oauth2;;" + prov + ";;" + uid
+			out := []SymStep{st, cb, {Kind: kind, U: "o" + prov + uid, P: pid}}
+			if c.has("logout") && g.rng.Intn(2) == 0 {
+				out = append(out, g.req(b, c.LogoutMethod, "Logout", nil))
+			}
+			return append(out, st, cb)
+		})
+	}
 	if c.has("otp") {
 		add(boost(2, "onetime"), func() []SymStep {
 			b, u, ok := g.loggedIn()
